@@ -1,2 +1,102 @@
-#include "verif_common.hh"
-int main(){return 0;}
+// Engine `surf` (property C12): surface primitives are self-consistent; transforms
+// preserve their point sets.  See surf_ref.hh (reference models in __float128),
+// surf_monitor.hh (ray/sense/normal monitor), surf_gen.hh (generators).
+#include "surf_common.hh"
+
+using namespace surf;
+
+int main(int argc, char** argv)
+{
+    verif::Args args = verif::parse_args(argc, argv);
+    if (args.property.empty())
+        args.property = "C12";
+    if (args.property != "C12")
+    {
+        std::cerr << "surf_engine serves C12 only\n";
+        return 2;
+    }
+    verif::Report rep("C12", "surf", args);
+    rep.set_rule(
+        "Each case = one real evaluation judged online against a __float128 reference built from the "
+        "surface's public parameters. ray cases: random surface of one of 18 types (scales log-uniform over "
+        "12 decades, centres displaced by up to 1e6 radii), position class {near, far, on, nearsurf-in/out, "
+        "centre, axis, lattice-on} x direction class {iso, axis, tangent, near-tangent, ruling, ruling-fuzz, "
+        "ruling-tilted, normal, aimed, lattice} x SurfaceState {on, off}: calc_intersections is matched "
+        "against the exact roots (reported distances positive, on the surface within a derived rounding "
+        "tolerance, no missed transversal crossing, zero root excluded in state on), calc_sense against "
+        "sign f at the start point and between crossings (must flip), calc_normal against the unit gradient "
+        "at every crossing. xform cases: SurfaceTranslator / SurfaceTransformer (rotation, reflection, signed "
+        "permutation, pure translation) / SurfaceSimplifier (chain, with returned sense flip) applied to a "
+        "random surface; the real calc_sense of the result at transformed points must equal sign f_in, "
+        "flipped as reported. tf cases: transform_up/down, rotate_up/down of Translation, Transformation, "
+        "SignedPermutation (all 48 signed axis triples) against quad references and as round trips; "
+        "make_rotation/orthonormalize orthonormality; TransformSimplifier displacement bound. A coverage cell "
+        "is kind/surface-type/branch/position-class/direction-class/state (ray), kind/type/operation/result-type/"
+        "position-class (xform), kind/operation/class (tf). Non-trivial = the reference could judge the case "
+        "(outside every tolerance band); cases inside a band are counted inconclusive.");
+    rep.assume("libquadmath __float128 arithmetic (113-bit) is exact enough that its own rounding (1e-34) is "
+               "negligible against the double-precision bands (>= 1e-16)");
+    rep.assume("the surface equations and sign conventions are those printed in the class doc comments of "
+               "orange/surf/*.hh (f<0 inside, f>0 outside; outward normal = +grad f)");
+    rep.assume("rounding model: a double evaluation of a polynomial has error <= 16 eps * (sum of |terms|)");
+
+    if (!args.replay.empty())
+    {
+        // replay: re-run exactly the (seed, index) cases named in a witness file
+        std::ifstream f(args.replay);
+        json w;
+        try
+        {
+            f >> w;
+        }
+        catch (std::exception const& e)
+        {
+            std::cerr << "cannot parse replay file: " << e.what() << "\n";
+            return 2;
+        }
+        for (auto const& wi : w.value("witnesses", json::array()))
+        {
+            json const& c = wi.contains("case") ? wi["case"] : wi;
+            verif::Args a2 = args;
+            a2.seed = c.value("seed", args.seed);
+            Ctx cx{rep, a2};
+            if (!c.contains("index"))
+            {
+                run_point_transforms(cx, 0);  // permutation enumeration
+                continue;
+            }
+            std::uint64_t idx = c["index"].get<std::uint64_t>();
+            std::uint64_t cat = idx >> 40;
+            std::cerr << "replaying seed=" << a2.seed << " index=" << idx << "\n";
+            if (cat >= 1 && cat <= 17)
+                ray_index(cx, idx);
+            else if (cat == 100)
+                inv_index(cx, idx);
+            else if (cat == 200)
+                run_lattice(cx);
+            else if (cat >= 301 && cat <= 399)
+                xform_index(cx, idx);
+            else if (cat == 500)
+                run_point_transforms(cx, 0);
+            else if (cat == 600)
+                tf_index(cx, idx);
+        }
+        return rep.finish();
+    }
+
+    Ctx cx{rep, args};
+    std::string only = args.get("only", "");
+    auto want = [&](char const* k) { return only.empty() || only == k; };
+
+    if (want("ray"))
+        run_quadric_rays(cx, args.budget(100000, 3000000));
+    if (want("lattice"))
+        run_lattice(cx);
+    if (want("inv"))
+        run_involute(cx, args.budget(150000, 4500000));
+    if (want("xform"))
+        run_surface_transforms(cx, args.budget(10000, 300000));
+    if (want("tf"))
+        run_point_transforms(cx, args.budget(100000, 3000000));
+    return rep.finish();
+}
